@@ -453,10 +453,83 @@ Proof.
   - apply close_body_is_step.
 Qed.
 
-(* A program extracted from the source has the meaning of Buffer.v when it is the
-   critical section  Lock; body; Unlock; return  around one of the two bodies above. *)
-Definition is_write_method (p : list stmt) (N : nat) : Prop := strip p = method_of (write_body N).
-Definition is_close_method (p : list stmt) : Prop := strip p = method_of close_body.
+(* ------------------------------------------------------------------ recognising a critical section *)
+
+(* what stands between the leading Lock and the trailing `Unlock; return` *)
+Definition crit_body (p : list stmt) : option (list stmt) :=
+  match p with
+  | Do PLock :: r =>
+      match rev r with
+      | Return :: Do PUnlock :: b => Some (rev b)
+      | _ => None
+      end
+  | _ => None
+  end.
+
+Lemma crit_body_ok p b : crit_body p = Some b -> p = method_of b.
+Proof.
+  unfold crit_body, method_of. destruct p as [|s r]; [discriminate|].
+  destruct s as [w|pr|c n th el|pr h|bd|bd| |bd|bd|bd|bd|f|pr| |]; try discriminate.
+  destruct pr; try discriminate.
+  destruct (rev r) as [|s1 [|s2 b']] eqn:E; try discriminate.
+  - destruct s1; discriminate.
+  - destruct s1; try discriminate. destruct s2 as [w|pr|c n th el|pr h|bd|bd| |bd|bd|bd|bd|f|pr| |]; try discriminate.
+    destruct pr; try discriminate. intros H. inversion H; subst b. f_equal.
+    rewrite <- (rev_involutive r), E. cbn. rewrite <- app_assoc. reflexivity.
+Qed.
+
+(* A program extracted from the source has the meaning of Buffer.v when it is a critical
+   section  Lock; body; Unlock; return  whose body contains buffer statements only and whose
+   uninterrupted run is Buffer.step - for every state and every argument.  (The body need not
+   be spelled like write_body / close_body: `len > N-1`, `!(len < N)` with the branches
+   exchanged, `len > 0` for `len != 0` .. have the same run; the tactic `buffer_method` below
+   decides that by case analysis on the comparisons.) *)
+Definition is_write_method (p : list stmt) (N : nat) : Prop :=
+  exists bw, strip p = method_of bw /\ plain bw = true /\
+    forall A (s : Buffer.state A) (items : list A),
+      seqs items bw (data_of s) = data_of (Buffer.step N s (Write items)).
+Definition is_close_method (p : list stmt) : Prop :=
+  exists bc, strip p = method_of bc /\ plain bc = true /\
+    forall A N (s : Buffer.state A), seqs [] bc (data_of s) = data_of (Buffer.step N s Close).
+
+Lemma write_body_method p N : strip p = method_of (write_body N) -> is_write_method p N.
+Proof. intros H. exists (write_body N). split; [exact H|]. split; [reflexivity|]. intros. apply write_body_is_step. Qed.
+
+Lemma close_body_method p : strip p = method_of close_body -> is_close_method p.
+Proof. intros H. exists close_body. split; [exact H|]. split; [reflexivity|]. intros. apply close_body_is_step. Qed.
+
+Ltac nat_bools :=
+  repeat match goal with
+  | H : (_ <=? _) = true |- _ => apply Nat.leb_le in H
+  | H : (_ <=? _) = false |- _ => apply Nat.leb_gt in H
+  | H : (_ <? _) = true |- _ => apply Nat.ltb_lt in H
+  | H : (_ <? _) = false |- _ => apply Nat.ltb_ge in H
+  | H : (_ =? _) = true |- _ => apply Nat.eqb_eq in H
+  | H : (_ =? _) = false |- _ => apply Nat.eqb_neq in H
+  | H : negb _ = true |- _ => apply negb_true_iff in H
+  | H : negb _ = false |- _ => apply negb_false_iff in H
+  end.
+
+(* both sides are nests of `if <comparison of lengths> then .. else ..` over the same data:
+   split on every comparison, the branches agree or the comparisons contradict each other *)
+Ltac split_ifs :=
+  repeat match goal with
+  | |- context [if ?b then _ else _] => let E := fresh "E" in destruct b eqn:E
+  end;
+  try reflexivity; exfalso; nat_bools; cbn [length] in *; lia.
+
+Ltac buffer_write_sem :=
+  let A := fresh "A" in let s := fresh "s" in let items := fresh "items" in
+  intros A s items; unfold seqs, data_of; cbn [fold_left seq1 fst snd cmp_nat Buffer.step buf sent];
+  split_ifs.
+
+Ltac buffer_close_sem :=
+  let A := fresh "A" in let N := fresh "N" in let s := fresh "s" in
+  intros A N s; unfold seqs, data_of; cbn [fold_left seq1 fst snd cmp_nat Buffer.step buf sent];
+  destruct (buf s); cbn [length]; split_ifs.
+
+Ltac buffer_method sem :=
+  eexists; split; [apply crit_body_ok; vm_compute; reflexivity | split; [vm_compute; reflexivity | sem]].
 
 Section Source.
   Variable A : Type.
@@ -475,10 +548,15 @@ Section Source.
                         c_sent c = sent (Buffer.run N (map snd (c_log c)))) /\
     (finished c -> c_lock c = None /\ Merge opss (map snd (c_log c))).
   Proof.
-    intros c.
-    destruct (@atomic_calls A (strip pw) (strip pc) (write_body N) close_body Hw Hc eq_refl eq_refl opss sched) as [H1 H2].
-    fold c in H1, H2. split; [|exact H2]. intros Hl. specialize (H1 Hl). rewrite exec_ops_is_run in H1.
-    unfold data_of in H1. inversion H1. split; reflexivity.
+    intros c. destruct Hw as (bw & Ew & Pw & Sw). destruct Hc as (bc & Ec & Pc & Sc).
+    destruct (@atomic_calls A (strip pw) (strip pc) bw bc Ew Ec Pw Pc opss sched) as [H1 H2].
+    fold c in H1, H2. split; [|exact H2]. intros Hl. specialize (H1 Hl).
+    assert (Hrun : forall m : list (op A), exec_ops bw bc m = data_of (Buffer.run N m)).
+    { intros m. unfold exec_ops, Buffer.run, Buffer.run_from.
+      change (@nil A, @nil (list A)) with (data_of (Buffer.init A)).
+      generalize (Buffer.init A). induction m as [|o m IH]; intros s; cbn [fold_left]; [reflexivity|].
+      rewrite <- IH. f_equal. unfold apply_op. destruct o as [items|]; cbn [arg body]; [apply Sw | apply Sc]. }
+    rewrite Hrun in H1. unfold data_of in H1. inversion H1. split; reflexivity.
   Qed.
 
   (* Several producer goroutines writing concurrently, then (after they have all finished)
